@@ -25,6 +25,7 @@ type PropSpec struct {
 	Bounds      []string
 	Outside     []string
 	StaticChecks []func(eng *Engine) (name string, ok bool, detail string)
+	LabelPrefixes []string // if set: only assertion labels with one of these prefixes belong to this property
 }
 
 type KnownFinding struct {
@@ -133,8 +134,22 @@ func cmdCheck(args []string) {
 
 	// ---- native replay of every model ----
 	var cases []ReplayCase
+	mine := func(label string) bool {
+		if len(spec.LabelPrefixes) == 0 || strings.HasSuffix(label, ".uncaught_panic") || strings.HasSuffix(label, ".would_block") {
+			return true
+		}
+		for _, p := range spec.LabelPrefixes {
+			if strings.HasPrefix(label, p) {
+				return true
+			}
+		}
+		return false
+	}
 	for _, rep := range reports {
 		for i, v := range rep.Violations {
+			if !mine(v.Label) {
+				continue
+			}
 			cases = append(cases, ReplayCase{Name: fmt.Sprintf("%s/viol/%s/%d", rep.Config.Name, v.Label, i), Harness: rep.Config.Harness, Params: rep.Config.Params,
 				Values: v.Model, Expect: "assert:" + v.Label, Pkg: rep.Config.Pkg, Label: v.Label, Config: rep.Config.Name})
 		}
